@@ -341,6 +341,33 @@ func readPayloadF(via string, side ws.State, g, n int, chunks []int, frags int) 
 	return out, err
 }
 
+// readPartial makes ReadData return some bytes together with an error: a text message of n bytes whose
+// last byte is not UTF-8 (cut=false), or a binary message of which only n-1 bytes arrive (cut=true).
+func readPartial(side ws.State, g, n int, chunks []int, cut bool) ([]byte, error) {
+	if n < 2 {
+		n = 2
+	}
+	p := []byte(word(g, 52, n))
+	op := byte(ref.OpBinary)
+	if !cut {
+		op = ref.OpText
+		p[n-1] = 0xff
+	}
+	f := ref.Frame{H: ref.Header{Fin: true, Op: op, Masked: side.ServerSide(), Mask: [4]byte{byte(g), 5, 6, 7}}, Payload: p}
+	wire := f.Encode()
+	if cut {
+		wire = wire[:len(wire)-1]
+	}
+	out, _, err := wsutil.ReadData(tx.RW{Reader: tx.NewSrc(wire, chunks), Writer: tx.NewRec()}, side)
+	if err == nil {
+		return nil, fmt.Errorf("harness: ReadData accepted a %s message", map[bool]string{true: "cut", false: "non-UTF-8 text"}[cut])
+	}
+	if len(out) > 0 && string(out) != string(p[:len(out)]) {
+		return nil, fmt.Errorf("harness: ReadData returned %q with error %v, the message starts %q", head(out), err, head(p))
+	}
+	return out, nil
+}
+
 // readInto reads one single-frame message of n bytes with ReadMessage appending to ms.
 func readInto(ms []wsutil.Message, side ws.State, g, n int, chunks []int) ([]byte, []wsutil.Message, error) {
 	f := ref.Frame{H: ref.Header{Fin: true, Op: ref.OpBinary, Masked: side.ServerSide(), Mask: [4]byte{byte(g), 7, 3, 9}}, Payload: []byte(word(g, 52, n))}
@@ -401,7 +428,7 @@ func clientWrite(g, n int) {
 
 var resultKinds = []string{
 	"Upgrader/Protocol+Extension", "Upgrader/Negotiate:wsflate", "HTTPUpgrader/Protocol+Extension", "HTTPUpgrader/Negotiate:wsflate",
-	"Dialer", "ClosedError", "ReadMessage", "ReadData", "ReadMessage/fragmented", "ReadData/fragmented", "ReadMessage+HandleControlMessage", "ReadMessage/recycled-slice",
+	"Dialer", "ClosedError", "ReadMessage", "ReadData", "ReadMessage/fragmented", "ReadData/fragmented", "ReadMessage+HandleControlMessage", "ReadMessage/recycled-slice", "ReadData/partial-with-error",
 }
 
 func TestResultsSurvivePoolReuse(t *testing.T) {
@@ -456,6 +483,12 @@ func TestResultsSurvivePoolReuse(t *testing.T) {
 			if err == nil && string(p) != want {
 				t.Fatalf("the ping payload returned by ReadMessage was changed by HandleControlMessage answering it: %q, want %q (side %v)", p, want, side)
 			}
+		case "ReadData/partial-with-error":
+			// the bytes ReadData hands back TOGETHER WITH an error (the valid prefix of a text message with a bad
+			// byte, the part of a payload that arrived before the stream ended) are the caller's as well
+			var p []byte
+			p, err = readPartial(side, 0, size, chunks, rapid.Bool().Draw(t, "cut"))
+			live = func() string { return string(p) }
 		case "ReadMessage/recycled-slice":
 			// the msgs[:0] idiom: the caller passes the emptied slice of the previous call back in while it
 			// still holds the earlier payloads; a later, shorter or equal message must not be read into them
